@@ -259,4 +259,30 @@ def sortNat (l : List Nat) : List Nat := l.foldr insSorted []
 /-- the positional link between paths and mtimes is dropped (mtimes as a sorted multiset) -/
 def keyUnordered : KeyFn := fun cls ps ms => ⟨cls, ps, sortNat ms⟩
 
+
+/-! ### the constructor sorts the members; an environment-dependent variant (documentation) -/
+
+/-- `sorted(fileset.fspaths)`: the member list the key is built from, whatever order (or set iteration order)
+    the members were handed over in.  Path ids are numbered in the code's sort order. -/
+def members (given : List Path) : List Path := sortNat given
+
+/-- The key of the file-set constructed from `given`, if all members exist. -/
+def fileSetKey (fs : FS) (cls : Cls) (given : List Path) : Option Key :=
+  (readAll fs (members given)).map (fun cms => keyOf cls (members given) (cms.map Prod.snd))
+
+/-- Variant in which the mtimes are collected by iterating the raw member *set*: `order` is that process's
+    iteration order (positions into the sorted member list), an environment parameter (string-hash seed). -/
+def keyIterOrder (order : List Nat) : KeyFn := fun cls ps ms => ⟨cls, ps, order.map (fun i => ms.getD i 0)⟩
+
+/-- The machine with a key construction per session (`none` = the throw-away cache of `hash_function`). -/
+def stepEnv (env : Option Sess → KeyFn) (st : State) (op : Op) : State × Option (List Content) :=
+  match op with
+  | .hash s cls ps => hashWithK (env (some s)) st (some s) cls ps
+  | .hashFresh cls ps => hashWithK (env none) st none cls ps
+  | op => step st op
+
+def runEnv (env : Option Sess → KeyFn) (st : State) : List Op → List (Option (List Content))
+  | [] => []
+  | op :: ops => (stepEnv env st op).2 :: runEnv env (stepEnv env st op).1 ops
+
 end PydraModel.FileHash
